@@ -355,3 +355,103 @@ theorem distinctL_kids {t : Node} (h : distinct t = true) : distinctL t.kids = t
     simpa [Node.kids] using h.2
 
 end BS.Pretty
+
+namespace BS.Pretty
+
+/-! ### line structure without the visibility hypothesis: blocks -/
+
+/-- one stretch of the pretty output: `unit^(level+d)` before it or not, the content, a newline after it or not -/
+structure Block where
+  d : Nat
+  ind : Bool
+  p : PStr
+  nl : Bool
+deriving Repr, DecidableEq
+
+def blockOf (u : PStr) (l : Int) (b : Block) : PStr :=
+  (if b.ind then rep u (l + b.d) else []) ++ b.p ++ (if b.nl then [10] else [])
+
+mutual
+/-- like `items`, for every tree: a whitespace-preserving element whose opening (closing) piece is empty — a hidden one — is
+    a block without indentation (without newline) -/
+def blocks : Nat → Node → List Block
+  | d, .str s => if strip s = [] then [] else [⟨d, true, strip s, true⟩]
+  | d, .void t => if t = [] then [] else [⟨d, true, t, true⟩]
+  | d, .elem i o c pre ks =>
+    if pre then [⟨d, !o.isEmpty, plain (.elem i o c pre ks), !c.isEmpty⟩]
+    else (if o = [] then [] else [⟨d, true, o, true⟩]) ++ blocksL (d + 1) ks ++ (if c = [] then [] else [⟨d, true, c, true⟩])
+def blocksL : Nat → List Node → List Block
+  | _, [] => []
+  | d, k :: ks => blocks d k ++ blocksL d ks
+end
+
+def layoutB (u : PStr) (l : Int) (bs : List Block) : PStr := (bs.map (blockOf u l)).flatten
+
+theorem layoutB_append (u : PStr) (l : Int) (a b : List Block) : layoutB u l (a ++ b) = layoutB u l a ++ layoutB u l b := by
+  simp [layoutB]
+
+theorem fullLine_layoutB (u : PStr) (l : Int) (d : Nat) (p : PStr) :
+    fullLine u (l + d) p = layoutB u l (if p = [] then [] else [⟨d, true, p, true⟩]) := by
+  by_cases h : p = [] <;> simp [fullLine, h, layoutB, blockOf]
+
+mutual
+theorem pretty_blocks : ∀ (u : PStr) (t : Node) (l : Int) (d : Nat),
+    prettyNode u (l + d) false t = layoutB u l (blocks d t)
+  | u, .str s, l, d => by simp [prettyNode, blocks, fullLine_layoutB]
+  | u, .void t, l, d => by simp [prettyNode, blocks, fullLine_layoutB]
+  | u, .elem i o c pre ks, l, d => by
+    cases pre with
+    | true =>
+      by_cases ho : o = [] <;> by_cases hc : c = [] <;>
+        simp [prettyNode, blocks, openLine, closeLine, ho, hc, layoutB, blockOf, prettyL_lit, plain]
+    | false =>
+      have hd : l + (d : Int) + 1 = l + ((d + 1 : Nat) : Int) := by omega
+      simp only [prettyNode, blocks, fullLine_layoutB, hd]
+      rw [prettyL_blocks u ks l (d + 1)]
+      simp [layoutB_append]
+theorem prettyL_blocks : ∀ (u : PStr) (ks : List Node) (l : Int) (d : Nat),
+    prettyL u (l + d) false ks = layoutB u l (blocksL d ks)
+  | u, [], l, d => by simp [prettyL, blocksL, layoutB]
+  | u, k :: ks, l, d => by
+    simp only [prettyL, blocksL, layoutB_append]
+    rw [pretty_blocks u k l d, prettyL_blocks u ks l d]
+end
+
+/-- an item as a block: indented, newline after -/
+def lineBlock (it : Nat × PStr) : Block := ⟨it.1, true, it.2, true⟩
+
+mutual
+theorem blocks_items : ∀ (t : Node) (d : Nat), preVisible t = true → blocks d t = (items d t).map lineBlock
+  | .str s, d, _ => by by_cases h : strip s = [] <;> simp [blocks, items, h, lineBlock]
+  | .void t, d, _ => by by_cases h : t = [] <;> simp [blocks, items, h, lineBlock]
+  | .elem i o c pre ks, d, h => by
+    cases pre with
+    | true =>
+      simp only [preVisible, if_true, Bool.and_eq_true] at h
+      simp [blocks, items, lineBlock, h.1, h.2]
+    | false =>
+      simp only [preVisible] at h
+      have := blocksL_items ks (d + 1) (by simpa using h)
+      by_cases ho : o = [] <;> by_cases hc : c = [] <;> simp [blocks, items, ho, hc, this, lineBlock]
+theorem blocksL_items : ∀ (ks : List Node) (d : Nat), preVisibleL ks = true → blocksL d ks = (itemsL d ks).map lineBlock
+  | [], d, _ => by simp [blocksL, itemsL]
+  | k :: ks, d, h => by
+    simp only [preVisibleL, Bool.and_eq_true] at h
+    simp [blocksL, itemsL, blocks_items k d h.1, blocksL_items ks d h.2]
+end
+
+/-! ### verbatim blocks below a list of nodes -/
+
+theorem outermost_infix_L (u : PStr) {d : Nat} {e k : Node} {ks : List Node} (hk : k ∈ ks) (h : OutermostPre d e k)
+    (l : Int) : plain e <:+: prettyL u l false ks := by
+  obtain ⟨a, b, hab⟩ := infix_prettyL u l k ks hk
+  obtain ⟨a', b', hab'⟩ := outermost_infix u h l
+  exact ⟨a ++ a', b' ++ b, by simp [← hab, ← hab']⟩
+
+theorem outermost_line_L (u : PStr) {d : Nat} {e k : Node} {ks : List Node} (hk : k ∈ ks) (h : OutermostPre d e k)
+    (hv : preVisible e = true) (l : Int) : rep u (l + d) ++ plain e ++ [10] <:+: prettyL u l false ks := by
+  obtain ⟨a, b, hab⟩ := infix_prettyL u l k ks hk
+  obtain ⟨a', b', hab'⟩ := outermost_line u h hv l
+  exact ⟨a ++ a', b' ++ b, by simp [← hab, ← hab']⟩
+
+end BS.Pretty
